@@ -11,18 +11,26 @@ REPO = os.environ.get("VERIF_REPO", "/repo")  # VERIF_REPO: evaluate a scratch c
 # c01_session.go, the configuration fixture of c19_effect.go): every harness of that property in
 # that package needs them, because all cNN_ files of the property are compiled together
 NEEDS = {("server", "c04_"): ["c01_"], ("server", "c08_"): ["c01_"], ("server", "c16_"): ["c01_"],
-         ("server", "c05_"): ["c19_", "c01_"]}
+         ("server", "c05_"): ["c19_", "c01_"],
+         ("include", "c10_"): ["c11_"]}  # the glob-history harness in common.go compares with c11's zSameResult
+
+# harnesses that call an unexported function directly live in files with a lettered prefix, which
+# only they get: a signature change stops them alone
+FN_NEEDS = {"VerifC17Edits": ["c17e_"], "VerifC06Edits": ["c06e_"]}
 
 def files_for(pkg, fn, extra=()):
     m = re.match(r"VerifC(\d\d)", fn)
     want = ["c" + m.group(1) + "_"] if m else []
     want += [e for e in extra if e]
+    for pre, ws in FN_NEEDS.items():
+        if fn.startswith(pre):
+            want += ws
     for w in list(want):
         want += NEEDS.get((pkg, w), [])
     out = []
     for f in sorted(glob.glob(f"/verif/harness/{pkg}/*.go")):
         b = os.path.basename(f)
-        if re.match(r"c\d\d_", b) and not any(b.startswith(w) for w in want):
+        if re.match(r"c\d\d[a-z]?_", b) and not any(b.startswith(w) for w in want):
             continue
         out.append(f)
     return out
